@@ -17,9 +17,16 @@ def P(level, proved, partial, technique, design, scale_q=1.0, scale_t=1.0):
 
 
 PROPS = {
-    "C01": P("exploration", "none yet (backbone lemmas make_consistent / unmake_make are used by C04/C05)",
-             ["legal_gen_all_mem", "prefilter soundness", "checker exactness"],
-             "Lean Spec oracle (mailbox rules) + Lean Impl model, differential against the real generators; D1 family enumerated",
+    "C01": P("proof", "legalGen_eq_rules: on EVERY valid position the legal generator returns, each exactly once, precisely Spec.legalMoves "
+             "(the rules' pseudo-legal moves — piece movement, captures, single/double pawn steps, en passant, four promotions, both "
+             "castlings — that do not leave the mover's king attacked); legalGen_spec: the capture / simple / simple-no-promote / "
+             "simple-promote legal generators return exactly the corresponding subsets, never panic, no duplicates; "
+             "validate_iff_generated: Move::validate and apply-and-test agree with that set; ingredients proved: generator exactness "
+             "(mem_genWith_iff), genWith_nodup, prefilter soundness (pinned_has_diag/line, prefilter_sound, isLegal_default), exactness of "
+             "the unprefiltered legality test on all three code paths (isLegal_nil), make_refines_apply, pseudo_iff_semilegal",
+             [],
+             "Lean 4 theorems over all valid positions (kernel-decided geometry facts over all squares; sliders for all 2^64 occupancies via C15); "
+             "differential (generators vs Lean Spec oracle, D1 family enumerated) ties the model to the code",
              "§6 C01", 0.5),
     "C02": P("proof", "valid_iff_validate (Valid b ⇔ the gate returns b unchanged); validate_valid / fen_board_valid (both entry points "
              "give valid positions); make_checked_iff + make_checked_iff_rules (impl Make for Move accepts exactly the semilegal moves that "
@@ -52,8 +59,13 @@ PROPS = {
              ["single_feature_diff_hash_ne assembled only for the cases listed in Props/C05"],
              "Lean 4 invariant proof (Consistent b := b = buildBoard b.r) + kernel-decided facts on the extracted Zobrist table",
              "§5, §6 C05"),
-    "C06": P("exploration", "none yet", ["wellformed_iff_spec", "semilegal_iff_gen", "gen_iff_spec"],
-             "differential: all 532,480 tuples for well-formedness (exhaustive, bitmap per kind×cell) and semilegality on sampled positions vs Spec.geomPossible / Spec.pseudoMoves",
+    "C06": P("proof", "semilegalGen_all_iff (on a valid position a move is generated iff it is well-formed and is_semilegal accepts it); "
+             "semilegalGen_eq_pseudo + pseudo_iff_semilegal (that set is exactly the rules' pseudo-legal moves, bijection concMove/absMove); "
+             "semilegalGen_iff + whichClass_spec (capture / simple / simple-no-promote / simple-promote generators = the corresponding "
+             "subsets, hence the disjoint unions); semilegalGen_nodup; generated_names_piece (every generated move is well-formed and "
+             "names the man on its source)",
+             ["Move::new accepts exactly the geometrically possible tuples (Spec.geomPossible): differential over all 532,480 tuples (a kernel decision of ~6 min; not yet a theorem)"],
+             "Lean 4 theorems over all valid positions; differential (wfbulk over all tuples, semibulk, generators) ties the model to the code",
              "§6 C06"),
     "C07": P("exploration", "none yet", ["has_legal_moves_iff", "insufficient_iff", "calc_outcome_eq"],
              "differential vs Spec.outcomes (relational: any applicable reason of the right tier); thresholds and masks re-extracted from source",
